@@ -61,7 +61,7 @@ pub struct ConcJob {
     pub tag: String,
 }
 fn hang_default() -> u64 {
-    3000
+    20000
 }
 
 #[derive(Clone, Debug)]
